@@ -156,4 +156,133 @@ def expected : Facts where
   flagDefault := .lit 1 2
   consensusArgs := [.v "treechan", .v "consensusCutoff"]
 
+/-! ## round 7b: semantic rows — the extracted conditions are *evaluated on probes*, so that an equivalent
+    rewrite of the source (other operand order, De Morgan, …) keeps the check green and a rewrite that
+    changes the behaviour on a probe does not -/
+
+/-- a float64 value as far as comparisons are concerned: a rational, or NaN (`none`) -/
+abbrev FV := Option Rat
+
+/-- Go's comparison of float64 values: every ordered comparison with a NaN is false, `!=` is true -/
+def cmpF (op : String) (x y : FV) : Option Bool :=
+  match x, y with
+  | some a, some b => cmpR op a b
+  | _, _ => if op == "!=" then some true
+            else if op == "<" || op == "<=" || op == ">" || op == ">=" || op == "==" then some false else none
+
+def evalF (env : List (String × FV)) : E → Option FV
+  | .v n => env.lookup n
+  | .lit a b => some (some ((a : Rat) / (b : Rat)))
+  | .neg a => (evalF env a).map (fun x => x.map (fun r => -r))
+  | _ => none
+
+/-- a Boolean Go expression over float64 variables that may hold NaN -/
+def evalBF (env : List (String × FV)) : E → Option Bool
+  | .not a => (evalBF env a).map (!·)
+  | .bin op a b =>
+    if op == "&&" then
+      match evalBF env a, evalBF env b with
+      | some x, some y => some (x && y)
+      | _, _ => none
+    else if op == "||" then
+      match evalBF env a, evalBF env b with
+      | some x, some y => some (x || y)
+      | _, _ => none
+    else
+      match evalF env a, evalF env b with
+      | some x, some y => cmpF op x y
+      | _, _ => none
+  | _ => none
+
+def cmpZ (op : String) (x y : Int) : Option Bool :=
+  if op == "<" then some (decide (x < y))
+  else if op == "<=" then some (decide (x ≤ y))
+  else if op == ">" then some (decide (y < x))
+  else if op == ">=" then some (decide (y ≤ x))
+  else if op == "==" then some (x == y)
+  else if op == "!=" then some (x != y)
+  else none
+
+/-- an `int` Go expression; `len(x)` is the variable `len(x)` of the environment -/
+def evalZ (env : List (String × Int)) : E → Option Int
+  | .v n => env.lookup n
+  | .lit a b => if b == 1 then some (a : Int) else none
+  | .neg a => (evalZ env a).map (fun x => -x)
+  | .call1 f (.v x) => if f == "len" then env.lookup ("len(" ++ x ++ ")") else none
+  | .bin op a b =>
+    match evalZ env a, evalZ env b with
+    | some x, some y => if op == "+" then some (x + y) else if op == "-" then some (x - y) else none
+    | _, _ => none
+  | _ => none
+
+def evalBZ (env : List (String × Int)) : E → Option Bool
+  | .not a => (evalBZ env a).map (!·)
+  | .bin op a b =>
+    if op == "&&" then
+      match evalBZ env a, evalBZ env b with
+      | some x, some y => some (x && y)
+      | _, _ => none
+    else if op == "||" then
+      match evalBZ env a, evalBZ env b with
+      | some x, some y => some (x || y)
+      | _, _ => none
+    else
+      match evalZ env a, evalZ env b with
+      | some x, some y => cmpZ op x y
+      | _, _ => none
+  | _ => none
+
+/-- thresholds probed: both ends of the range, their float64 neighbours, inside, outside, zero, negative, NaN -/
+def rangeProbes : List FV :=
+  [some (1/2), some 1, some (3/4), some (4503599627370495/9007199254740992), some (4503599627370497/9007199254740992),
+   some (9007199254740991/9007199254740992), some (4503599627370497/4503599627370496), some (49/100), some (101/100),
+   some 0, some (-1), some 2, some (1/4), none]
+
+/-- the range test of the source rejects exactly what the reviewed one rejects, on every probe -/
+def rangeRowOK (cond : E) : Bool :=
+  rangeProbes.all fun c => evalBF [("cutoff", c)] cond == evalBF [("cutoff", c)] expectedRange &&
+    (evalBF [("cutoff", c)] cond).isSome
+
+/-- the filter of `EdgeIndex.Edges` on every (count, min, max) in 0..5 (parameter names as extracted) -/
+def keepRowOK (cond : E) (params : List String) : Bool :=
+  match params with
+  | [pmin, pmax] =>
+    (List.range 6).all fun x => (List.range 6).all fun m => (List.range 6).all fun n =>
+      evalBN [("v.Count", x), (pmin, m), (pmax, n)] cond ==
+        some ((decide (x > m) && decide (x ≤ n)) || x == n)
+  | _ => false
+
+/-- the refusal test of `AddBipartition` on every (len(edges), len(n.br)) in 0..7 × 1..8 -/
+def refuseRowOK (cond : E) : Bool :=
+  (List.range 8).all fun a => (List.range 8).all fun b0 =>
+    let b := b0 + 1
+    evalBZ [("len(edges)", (a : Int)), ("len(n.br)", (b : Int))] cond ==
+      some (decide (a ≤ 1) || decide ((a : Int) ≥ (b : Int) - 1))
+
+/-- the order of the tree-changing steps, as far as it matters: nothing else than these four is called,
+    each at least once, `UnRoot` after `RemoveSingleNodes` (a single-child root child would become a
+    degree-2 root: seeded change C09-2) and after the tip-root `Reroot`, `ReinitIndexes` after all of
+    them.  The relative order of `Reroot` (tip root moved to its neighbour) and `RemoveSingleNodes` is
+    free: both orders give the same unrooted tree (round-7 own breakage "tip-root move after
+    RemoveSingleNodes": equivalent on every case). -/
+def prepOrderOK (calls : List String) : Bool :=
+  let idx (s : String) := calls.idxOf s
+  calls.all (fun s => ["Reroot", "RemoveSingleNodes", "UnRoot", "ReinitIndexes"].contains s) &&
+  ["Reroot", "RemoveSingleNodes", "UnRoot", "ReinitIndexes"].all calls.contains &&
+  calls.length == 4 &&
+  decide (idx "RemoveSingleNodes" < idx "UnRoot") && decide (idx "Reroot" < idx "UnRoot") &&
+  decide (idx "UnRoot" < idx "ReinitIndexes")
+
+/-- the rows compared literally (constants, names, the float64 cut and its correction) -/
+def literalRowsOK (f : Facts) : Bool :=
+  f.rangeMsg == expected.rangeMsg && f.indexSize == expected.indexSize && f.loadFactor == expected.loadFactor &&
+  f.minCountInit == expected.minCountInit && f.minCountFixCond == expected.minCountFixCond &&
+  f.minCountFixBody == expected.minCountFixBody && f.edgesArgs == expected.edgesArgs &&
+  f.flagVar == expected.flagVar && f.flagLong == expected.flagLong && f.flagShort == expected.flagShort &&
+  f.flagDefault == expected.flagDefault && f.consensusArgs == expected.consensusArgs
+
+def factsOK (f : Facts) : Bool :=
+  rangeRowOK f.rangeCond && keepRowOK f.keepCond f.keepParams && refuseRowOK f.addBipRefuse &&
+  prepOrderOK f.perTreeCalls && literalRowsOK f
+
 end Gotree.C09F
